@@ -38,6 +38,11 @@ var valueSemProgs = []valueSemProg{
 	// calls after an exception unwound frames that were re-used by discarded self tail calls
 	{"call-after-unwound-discarded-tail", "var f\nf = func(n) {\n if n == 0 { throw \"x\" }\n f(n - 1)\n}\ng := func() { return 42 }\nr := \"none\"\ntry { f(2) } catch e { r = \"done\" }\nreturn [r, g(), g()]", `["done", 42, 42]`},
 	{"call-after-unwound-discarded-tail-nested", "var f\nf = func(n) {\n if n == 0 { throw \"x\" }\n f(n - 1)\n}\nh := func() { try { f(3) } catch e { return \"c\" } }\ng := func(v) { return v * 2 }\nreturn [h(), g(21), h(), g(4)]", `["c", 42, "c", 8]`},
+	// the catch identifier takes the local slot of a variable whose block has ended; a closure that captured
+	// that variable keeps its value (open finding: the catch block stores with SETLOCAL, which writes through
+	// the pointer the closure left in the slot)
+	{"catch-reuses-captured-slot", `f := undefined; if true { a := 1; f = func() { return a } }; try { throw "x" } catch e { }; return string(f())`, `1`},
+	{"catch-reuses-captured-slot-in-function", `g := func() { f := undefined; if true { a := [7]; f = func() { return a } }; try { throw "x" } catch e { e = 0 }; return f() }; return g()`, `[7]`},
 	{"slice-shares-by-reference", `o := [1, 2, 3]; x := o[1:]; x[0] = 9; return [o, x]`, `[[1, 9, 3], [9, 3]]`},
 }
 
